@@ -2,6 +2,7 @@ package rules
 
 import (
 	"fmt"
+	"go/ast"
 	"go/token"
 	"go/types"
 	"sort"
@@ -93,12 +94,29 @@ func c03T6Fresh(r *core.R, v *c04Verdicts) int {
 			call    string
 		}
 		seen := map[string]*verdict{}
+		deepSeen := map[string]bool{}
 		var order []string
 		aborted := ""
 		for _, l := range labels {
 			x := c03NewDecoderInterp(r.P, c03Scenario{Elem: l})
+			deep := map[*ast.CallExpr][]c03DeepFinding{}
+			x.Model = c03DeepFreshModel(c03Receiver(fi), deep)
 			paths := x.Run(fi, nil)
 			c03DumpPaths(r.P, fi, "fresh, element "+l, paths)
+			for call, fs := range deep {
+				for _, f := range fs {
+					key := fmt.Sprintf("fresh %s %s@%s", c03Quote(l), f.field, name)
+					if _, dup := deepSeen[key]; dup {
+						continue
+					}
+					deepSeen[key] = true
+					if f.bad != "" {
+						v.bad(key, call.Pos(), "`%s` runs once per element of a sequence and decodes into a new value whose field %s is built on %s: encoding/xml appends to a slice with spare capacity without zeroing the element it re-exposes, keeps the entries of a map and fills a pointee in place, and decoding an element assigns only the attributes and children present, so the i-th child decoded into %s inherits what the i-th child of an earlier element left there (a slice cut to length 0 still has its old elements behind it)", src(r.P.Fset, call), f.field, f.bad, f.field)
+					} else {
+						v.unknown(key, call.Pos(), "`%s` runs once per element of a sequence and decodes into a new value whose field %s holds %s: whether that storage is fresh for the iteration is not decided", src(r.P.Fset, call), f.field, f.unknown)
+					}
+				}
+			}
 			if x.Aborted != "" {
 				aborted = x.Aborted
 			}
